@@ -418,6 +418,15 @@ def run_check(prop, tier, seed):
         except Exception as e:  # noqa: BLE001 - coverage is supplementary evidence, never a verdict
             cov["anchor_line_coverage"] = dict(error=str(e))
         subprocess.call(["rm", "-rf", cov_prefix])
+    be = {}
+    for name, sm in summaries.items():
+        if sm["sum"].get("enum_cases") and sm["max"].get("enum_space_per_configuration"):
+            space = sm["max"]["enum_space_per_configuration"]
+            be[name] = dict(arrays_enumerated=sm["sum"]["enum_cases"], space_per_configuration=space,
+                            configurations_enumerated_completely=sm["sum"]["enum_cases"] // space,
+                            what="every sorted array of length 1..7 over 9 consecutive key values at lowest(), mid-type and ending at max-1, all neighbouring queries")
+    if be:
+        cov["bounded_exhaustive"] = be
     extra = plan.get("evidence_extra")
     if extra:
         cov.update(extra(tasks, summaries))
